@@ -6,7 +6,7 @@ sys.path.insert(0, os.path.dirname(os.path.dirname(os.path.abspath(__file__))))
 ALL = ['C%02d' % i for i in range(1, 21)]
 
 NA = {
-    'C15': 'data-race freedom is a happens-before property over schedules; no single-goroutine assertion is equivalent and the engine has no scheduler (DESIGN §4)',
+    'C15': 'data-race freedom is a happens-before property over schedules; no single-goroutine assertion is equivalent; the cooperative goroutine scheduler executes one schedule and tracks no happens-before order, and a race detector on top of it would be dynamic analysis of one run rather than a solver verdict (DESIGN §4)',
     'C18': 'the generator is encoding/xml + regexp + text/template + file I/O + the Go compiler over XML documents: not a bounded computation over integers/arrays that can be encoded (DESIGN §4)',
 }
 PENDING = 'check not built yet in this session (see DESIGN §6 build order); not claimed until a check runs clean'
